@@ -53,6 +53,15 @@ func main() {
 	sweep := flag.String("sweep", "", "maintenance (seed / refactoring sweeps): comma-separated property ids or 'all'; loads -repo once, runs those rule tables and prints their VIOLATION:/UNDECIDED: lines; writes no evidence and is not a registered check")
 	dumpOpt := flag.String("dump-optderef", "", "maintenance: list optional-element dereferences in these comma-separated packages")
 	flag.Parse()
+	if *dumpOpt == "hashtables" {
+		p, err := core.Load(*repo, nil)
+		if err != nil {
+			fmt.Fprintln(os.Stderr, err)
+			os.Exit(2)
+		}
+		props.DumpHashTables(p)
+		return
+	}
 	if *dumpOpt == "explore" {
 		p, err := core.Load(*repo, nil)
 		if err != nil {
